@@ -205,7 +205,15 @@ def request(case):
             "refusal_tpl": REFUSAL if refusal_source(case) is None else refusal_source(case)}
 
 
+def capped(obs):
+    """the runtime's safety cap: a turn with more than 100 new events is cut off and the internal-error utterance appended (long
+    rail lists whose LAST rails block: the refusal tail comes on top of all the loop iterations) - outside the model, counted in the tags"""
+    return len(obs.get("events") or []) > 100 and (obs.get("response") or "").endswith(po.INTERNAL_ERROR)
+
+
 def compare(case, obs, m):
+    if capped(obs):
+        return None
     if "exc" in obs:
         return f"interp: generate raised {obs['exc']}"
     if m.get("res") != "ok":
@@ -274,6 +282,8 @@ def documented(case):
 
 def oracle(case, obs):
     """the documentation table, for rails of the shipped shapes (independent of the Lean model)"""
+    if capped(obs):
+        return None
     if "exc" in obs:
         return f"interp: generate raised {obs['exc']}"
     (exp_calls, exp_llm, reply), _ = documented(case)
@@ -350,6 +360,8 @@ def tags(case, obs):
          f"interp-rails:{len(case.get('input', []))}in/{len(case.get('output', []))}out",
          f"interp-events:{len(obs.get('events') or []) // 20 * 20}+"]
     t += ["interp-user-" + x for x in po.text_classes(case["user"])] + ["interp-bot-" + x for x in po.text_classes(case.get("bot"))]
+    if capped(obs):
+        t.append("interp-event-cap-hit")
     _, said = documented(case)
     if said is not None and obs.get("response") == said:
         t.append("interp-refused")
